@@ -1,7 +1,174 @@
-/- line-protocol handler for model "deflate" (stub until its model is built) -/
+/- line-protocol handler for model "deflate" (C19): same ops as harness/inproc/h_deflate.c -/
+import LtVerif.Model.Deflate
 namespace Driver
+open LtVerif LtVerif.B LtVerif.Deflate
+
+namespace Dfl
+
+def asciiOf (b : Bytes) : String := String.ofList (b.map fun x => Char.ofNat x.toNat)
+
+/-- "~" absent, "-" empty, else hex -/
+def optHex (s : String) : Option (Option Bytes) :=
+  if s = "~" then some none else (ofHex s).map some
+
+def hexList (s : String) : Option (List Bytes) := (s.splitOn ",").mapM ofHex
+
+/-- allowed-encodings token: "~" directive absent, "-" empty list, else hex list -/
+def allowedOf (s : String) : Option (List CSet) :=
+  if s = "~" then some (encodingsToFlags none)
+  else if s = "-" then some (encodingsToFlags (some []))
+  else (hexList s).map fun l => encodingsToFlags (some l)
+
+def labelStr (c : Coding) : String := asciiOf c.label
+
+def codingOfLabel (s : String) : Option Coding :=
+  if s = "gzip" then some .gzip else if s = "x-gzip" then some .xgzip
+  else if s = "deflate" then some .deflate else none
+
+def optOut : Option Bytes → String
+  | none => "~"
+  | some b => toHex b
+
+def methodOf (s : String) : Option Method :=
+  match s with
+  | "0" => some .get | "1" => some .head | "2" => some .query | "3" => some .other
+  | _ => none
+
+def rsLine (al mi mn mx cd me ae inm st fl ct et va cc bk ln : String) : String :=
+  match allowedOf al, (if mi = "~" then some [] else hexList mi), mn.toNat?, mx.toNat?, methodOf me,
+        optHex ae, optHex inm, st.toNat?, fl.toNat?, optHex ct, optHex et, optHex va, optHex cc, ln.toNat? with
+  | some allowed, some mimes, some minSz, some maxKB, some method, some ae', some inm', some status,
+    some flags, some ctype, some etag, some vary, some ccv, some len =>
+    let cfg : Cfg := { mimetypes := mimes, allowed := allowed, minSize := minSz, maxSizeKB := maxKB,
+                       cacheDir := cd = "1" }
+    let rq : Rq := { method := method, acceptEncoding := ae', ifNoneMatch := inm' }
+    let rs : Rs := { status := status, finished := flags % 2 = 1, hasTE := (flags / 2) % 2 = 1,
+                     hasCE := (flags / 4) % 2 = 1, contentType := ctype, etag := etag, vary := vary,
+                     cacheControl := ccv, hasCL := (flags / 8) % 2 = 1, len := len,
+                     wholeFile := bk = "f" && len > 0 }
+    let o := respStart cfg rq rs
+    let (v, body) := match o.verdict with
+      | .pass => ("pass", "id")
+      | .notModified => ("nm", "empty")
+      | .precondFailed => ("pf", "empty")
+      | .encode c cache => ("enc:" ++ labelStr c ++ ":" ++ (if cache then "1" else "0"), "dec")
+    v ++ " " ++ toString o.status ++ " " ++ optOut o.etag ++ " " ++ optOut o.vary ++ " " ++
+      optOut o.contentEncoding ++ " " ++ (if o.hasCL then "1" else "0") ++ " " ++ body
+  | _, _, _, _, _, _, _, _, _, _, _, _, _, _ => "bad-op"
+
+/-! ### cache histories -/
+
+/-- stand-in for zlib in the executable driver: 24 label-dependent filler bytes, then the
+    content (injective; only lengths ≥ 8 and determinism matter for the correspondence) -/
+def toyCompress (c : Coding) (x : Bytes) : Bytes := List.replicate 24 (c.label.length.toUInt8) ++ x
+
+def toyDecode (c : Coding) (b : Bytes) : String :=
+  if b.take 24 = List.replicate 24 (c.label.length.toUInt8) ∧ b.length ≥ 24 then "d" ++ toHex (b.drop 24)
+  else "BAD(model)"
+
+/-- validator of a source version: the ETag is a function of (inode, size, mtime) -/
+def validatorOf (v size : Nat) : Nat := v * 1000000 + size
+
+def digits? (s : String) : Option Nat := s.toNat?
+
+/-- write events "k3ik0fx" -/
+def parseEvents : List Char → Nat → Option (List WEv)
+  | [], _ => some []
+  | c :: rest, fuel =>
+    match fuel with
+    | 0 => none
+    | fuel + 1 =>
+      if c = 'k' then
+        let ds := rest.takeWhile Char.isDigit
+        match (String.ofList ds).toNat? with
+        | some n => (parseEvents (rest.dropWhile Char.isDigit) fuel).map (WEv.wr n :: ·)
+        | none => none
+      else if c = 'i' then (parseEvents rest fuel).map (WEv.eintr :: ·)
+      else if c = 'f' then (parseEvents rest fuel).map (WEv.fail :: ·)
+      else if c = 'x' then (parseEvents rest fuel).map (WEv.crash :: ·)
+      else none
+
+/-- plan "c1o1w<events>r<o|f|b|a>" -/
+def parsePlan (s : String) : Option Plan :=
+  match s.toList with
+  | 'c' :: c :: 'o' :: o :: 'w' :: rest =>
+    match rest.reverse with
+    | r :: 'r' :: evRev =>
+      let ren : Option RenEv := if r = 'o' then some .ok else if r = 'f' then some .fail
+        else if r = 'b' then some .crashBefore else if r = 'a' then some .crashAfter else none
+      match ren, parseEvents evRev.reverse (evRev.length + 1) with
+      | some rn, some evs => some { cacheable := c = '1', openOk := o = '1', writes := evs, rename := rn }
+      | _, _ => none
+    | _ => none
+  | _ => none
+
+def vtokOf (validator : Nat) : String := toString (validator / 1000000) ++ "." ++ toString (validator % 1000000)
+
+def parseVtok (s : String) : Option Nat :=
+  match s.splitOn "." with
+  | [a, b] => match a.toNat?, b.toNat? with
+    | some v, some sz => some (validatorOf v sz)
+    | _, _ => none
+  | _ => none
+
+def parseOp (tok : String) : Option Op :=
+  match tok.splitOn ":" with
+  | ["M", f, v, c] =>
+    match f.toNat?, v.toNat?, ofHex c with
+    | some file, some vv, some content => some (.modify file (validatorOf vv content.length) content)
+    | _, _, _ => none
+  | ["R", f, lab, pid, plan] =>
+    match f.toNat?, codingOfLabel lab, pid.toNat?, parsePlan plan with
+    | some file, some c, some p, some pl => some (.request file c p pl)
+    | _, _, _, _ => none
+  | ["E", "F", f, vt, lab] =>
+    match f.toNat?, parseVtok vt, codingOfLabel lab with
+    | some file, some v, some c => some (.evict (.final ⟨file, v, c⟩))
+    | _, _, _ => none
+  | ["E", "T", f, vt, lab, pid] =>
+    match f.toNat?, parseVtok vt, codingOfLabel lab, pid.toNat? with
+    | some file, some v, some c, some p => some (.evict (.tmp ⟨file, v, c⟩ p))
+    | _, _, _, _ => none
+  | _ => none
+
+def obsStr (op : Op) : Obs → String
+  | .quiet => "q"
+  | .error => "E"
+  | .crashed => "X"
+  | .served body hit =>
+    match op with
+    | .request _ c _ _ => "S:" ++ (if hit then "1" else "0") ++ ":" ++ labelStr c ++ ":" ++ toyDecode c body
+    | _ => "?"
+
+def listEntry : Name × Bytes → String
+  | (.final k, b) => "F:" ++ toString k.path ++ ":" ++ vtokOf k.validator ++ ":" ++ labelStr k.coding ++ ":" ++
+      toyDecode k.coding b
+  | (.tmp k pid, b) => "T:" ++ toString k.path ++ ":" ++ vtokOf k.validator ++ ":" ++ labelStr k.coding ++ ":" ++
+      toString pid ++ ":" ++ toString b.length
+
+def cacheLine (toks : List String) : String :=
+  match toks.mapM parseOp with
+  | none => "bad-op"
+  | some ops =>
+    let tr := run toyCompress {} ops
+    let fin := exec toyCompress {} ops
+    let obs := tr.map fun t => obsStr t.2.1 t.2.2
+    let listing := (fin.fs.map listEntry).toArray.qsort (fun a b => a < b) |>.toList
+    String.intercalate " " (obs ++ ["|"] ++ listing)
+
+end Dfl
 
 def deflateLine : List String → String
+  | ["ae", al, h] =>
+    match Dfl.allowedOf al, ofHex h with
+    | some allowed, some hdr =>
+      match chooseEncoding allowed hdr with
+      | some c => Dfl.labelStr c
+      | none => "none"
+    | _, _ => "bad-op"
+  | ["rs", al, mi, mn, mx, cd, me, ae, inm, st, fl, ct, et, va, cc, bk, _gen, ln] =>
+    Dfl.rsLine al mi mn mx cd me ae inm st fl ct et va cc bk ln
+  | "cache" :: ops => Dfl.cacheLine ops
   | _ => "bad-op"
 
 end Driver
